@@ -367,6 +367,40 @@ pub fn main(a: Args) -> i32 {
                 nfail += 1;
                 out.line("specfail.txt", &format!("{} C09 re-running after a kill before call {} did not reproduce the uninterrupted result (exit {:?})", id, k, ro.code));
             }
+            // ---- the same kill point with the chosen call HELD for 120 ms first (a slow disk, a descheduled thread): the other
+            // threads of the process go on meanwhile - a rename whose data write has not happened yet would publish a short
+            // file.  Oracle-only (the state is some later crash state of the model): whole versions only, outside-plan untouched
+            {
+                write_tree(&srcd, &sc.src);
+                write_tree(&dstd, &sc.dst);
+                let _ = std::fs::remove_file(&logf);
+                let mut ev = envs(Some(k));
+                ev.push(("VPSCHED_HOLD_MS", "120".to_string()));
+                let _ = run_sync(&cx, &args, &ev);
+                let mut last = read_tree(&dstd);
+                for _ in 0..40 {
+                    std::thread::sleep(std::time::Duration::from_millis(25));
+                    let now = read_tree(&dstd);
+                    if now == last { break; }
+                    last = now;
+                }
+                for (p, c) in &last {
+                    if p.ends_with(".copia-tmp") { continue; }
+                    let old_ok = dst0.get(p) == Some(c);
+                    let new_ok = srcmap.get(p).map(|(b, _)| b == c).unwrap_or(false);
+                    if !old_ok && !new_ok {
+                        nfail += 1;
+                        out.line("specfail.txt", &format!("{} C09 call {} held for 120 ms, then killed ({}): destination path {:?} holds {} bytes that are neither its previous content nor the complete source file", id, k, ["local", "push", "pull"][sc.dir as usize], p, c.len()));
+                    }
+                }
+                for (p, c, _) in sc.dst.iter().filter(|(p, _, _)| identical(p)) {
+                    if last.get(p) != Some(c) {
+                        nfail += 1;
+                        out.line("specfail.txt", &format!("{} C09 call {} held for 120 ms, then killed: a file outside the plan ({:?}) changed or vanished", id, k, p));
+                    }
+                }
+                out.count("kill_points_with_hold");
+            }
             let _ = ko;
             // ---- once per scenario: the crash left a staging file; the SOURCE is then replaced by other bytes of the same
             // length that carry the OLD timestamp (restore from a backup, cp -p), and the same command runs again: what
